@@ -131,6 +131,7 @@ Definition gcase_model_ok (c : gcase) : bool :=
 Record xexp := { x_code : N; x_fields : list (str * list str); x_absent : list str; x_body : str; x_trailers : list (str * list str) }.
 (* x_absent: hop-by-hop field names (RFC 7230 6.1 and those nominated by the origin's Connection field) that must not reach the client *)
 Record exch := {
+  e_closing : bool;         (* the proxy was shutting down when the response was written (p.closing()) *)
   e_req : req;
   e_snap : resp;            (* the *http.Response as the innermost response modifier saw it (header before the
                                hop-by-hop modifier ran); r_body = the chunks the client saw, or the whole body;
@@ -145,13 +146,13 @@ Record ecase := {
   e_closed : bool }.        (* the proxy closed the connection *)
 
 Definition exch_resp (e : exch) : resp := set_hdr (e_snap e) (remove_hop_by_hop (r_hdr (e_snap e))).
-Definition exch_wire (e : exch) : str := resp_wire false (e_req e) (exch_resp e) (e_order e).
+Definition exch_wire (e : exch) : str := resp_wire (e_closing e) (e_req e) (exch_resp e) (e_order e).
 Fixpoint survive_ok (closed : bool) (want : N) (i : N) (es : list exch) : bool :=
   match es with
   | [] => true
   | [e] => (* last completed exchange: the connection is closed iff the model says so, unless it was the last wanted *)
-      if conn_survives false (e_req e) (exch_resp e) then (i + 1 =? want) || negb closed else closed
-  | e :: r => conn_survives false (e_req e) (exch_resp e) && survive_ok closed want (i + 1) r
+      if conn_survives (e_closing e) (e_req e) (exch_resp e) then (i + 1 =? want) || negb closed else closed
+  | e :: r => conn_survives (e_closing e) (e_req e) (exch_resp e) && survive_ok closed want (i + 1) r
   end.
 (* the hypotheses of T02_roundtrip (ResponseProofs.wf_resp, restated here because Check.v comes
    before the proofs; Obligations.ob_wf_twin proves the two equal) hold of what the transport delivered *)
